@@ -31,19 +31,19 @@ static int gate(char kind, const std::string& path, size_t size, size_t& shortn)
     if (g_mode == 2) { if (g_count == g_k) _exit(77); return 0; }
     if (g_mode == 3 && kind != 'r') {
         bool hit = (g_count == g_k) || (g_persistent && g_fault_hit && path == g_fault_path);
-        if (hit) { g_fault_hit = true; g_fault_path = path; if (g_fault == 3) { shortn = size > 1 ? size / 2 : 0; if (size <= 1) { errno = ENOSPC; return 1; } return 2; } errno = g_fault == 1 ? ENOSPC : EIO; return 1; }
+        if (hit) { g_fault_hit = true; g_fault_path = path; if (g_fault == 3) { shortn = size > 1 ? size / 2 : 0; if (size <= 1) { errno = ENOSPC; return 1; } return 2; } if (g_fault == 4) return 3; errno = g_fault == 1 ? ENOSPC : EIO; return 1; }
     }
     return 0;
 }
 extern "C" ssize_t write(int fd, const void* buf, size_t n) {
     size_t sn = 0; int g = gate('w', fd_path(fd), n, sn);
-    if (g == 1) return -1; if (g == 2) return syscall(SYS_write, fd, buf, sn);
+    if (g == 1) return -1; if (g == 2) return syscall(SYS_write, fd, buf, sn); if (g == 3) return 0;   // 3: the call transfers nothing and reports 0
     return syscall(SYS_write, fd, buf, n);
 }
 extern "C" ssize_t writev(int fd, const struct iovec* iov, int cnt) {
     size_t total = 0; for (int i = 0; i < cnt; i++) total += iov[i].iov_len;
     size_t sn = 0; int g = gate('v', fd_path(fd), total, sn);
-    if (g == 1) return -1;
+    if (g == 1) return -1; if (g == 3) return 0;
     if (g == 2) { // write only the first sn bytes
         size_t left = sn; ssize_t done = 0; for (int i = 0; i < cnt && left; i++) { size_t l = std::min(left, iov[i].iov_len); ssize_t r = syscall(SYS_write, fd, iov[i].iov_base, l); if (r < 0) return done ? done : -1; done += r; left -= l; } return done; }
     return syscall(SYS_writev, fd, iov, cnt);
@@ -211,13 +211,17 @@ int main(int argc, char** argv) {
             R.sample("scenario=" + sc.name + ";output calls K=" + std::to_string(K) + ";every k in 1..K");
         } else {
             // ---- fault mode (C16)
-            for (long k = 1; k <= K; k++) { if (trace[k - 1].kind == 'r') continue; for (int fault = 1; fault <= 3; fault++) for (int persist = 0; persist < 2; persist++) {
+            bool hung = false;
+            for (long k = 1; k <= K; k++) { if (trace[k - 1].kind == 'r') continue; for (int fault = 1; fault <= 4; fault++) for (int persist = 0; persist < 2; persist++) {
+                // fault 4: write() transfers nothing and returns 0 - descriptor outputs only (for named outputs libstdc++ itself retries for ever, which says nothing about c-dns);
+                // persistent only; after the first hang of a scenario its remaining fault-4 cases are skipped
+                if (fault == 4 && (!sc.fd || !persist || hung)) continue;
                 if (only_k >= 0 && !(k == only_k && fault == only_fault && persist == only_persist)) continue;
                 prepare(); fflush(stdout); fflush(stderr);
                 std::string rf = top + "/res" + std::to_string(getpid());
                 pid_t p = fork();
                 if (p == 0) {
-                    alarm(60); g_mode = 3; g_count = 0; g_k = k; g_fault = fault; g_persistent = persist; g_fault_hit = false; RunLog l; run_scenario(sc, dir, true, l); g_mode = 0;
+                    alarm(fault == 4 ? 5 : 60); g_mode = 3; g_count = 0; g_k = k; g_fault = fault; g_persistent = persist; g_fault_hit = false; RunLog l; run_scenario(sc, dir, true, l); g_mode = 0;
                     std::ofstream o(rf); o << (g_fault_hit ? 1 : 0) << "\n" << l.block_write_failed << " " << l.failed_step << " " << l.buffered_before_fail << " " << l.buffered_after_fail << " " << l.recovered_rotate << "\n";
                     o << l.rotate_returned.size(); for (bool b : l.rotate_returned) o << " " << b; o << "\n"; o << l.recs_in_failed_block.size(); for (int r : l.recs_in_failed_block) o << " " << r; o << "\n";
                     o << l.events.size() << "\n"; for (auto& e : l.events) o << e.substr(0, 3) << "\n"; o << l.recovery_error << "\n" << l.rotations_ok << " " << l.failed << " " << l.final_rotate_ok << " " << l.retry_rotate_ok << " " << l.failed_before_final << "\n"; o.close(); _exit(0);
@@ -225,13 +229,14 @@ int main(int argc, char** argv) {
                 int st = 0; waitpid(p, &st, 0);
                 R.count("traces"); std::string rep = "scenario=" + sc.name + ";k=" + std::to_string(k) + ";fault=" + std::to_string(fault) + ";persist=" + std::to_string(persist);
                 std::string sink = sc.fd ? "fd" : "name", compn = sc.comp == 0 ? "plain" : sc.comp == 1 ? "gzip" : "xz";
+                if (WIFSIGNALED(st) && WTERMSIG(st) == SIGALRM) { hung = hung || fault == 4; R.violation("fault|hang|" + sink + "|" + compn, "no API call returned or threw within " + std::to_string(fault == 4 ? 5 : 60) + " s under an injected write fault (" + std::string(fault == 4 ? "write() returns 0" : "error / short write") + ")", rep); continue; }
                 if (!WIFEXITED(st) || WEXITSTATUS(st) != 0) { R.violation("fault|driver-died|" + sink + "|" + compn, "driver process ended abnormally (status " + std::to_string(st) + ") under an injected write fault", rep); continue; }
                 std::ifstream in(rf); int hit; RunLog l; size_t n; in >> hit >> l.block_write_failed >> l.failed_step >> l.buffered_before_fail >> l.buffered_after_fail >> l.recovered_rotate; in >> n; for (size_t i = 0; i < n; i++) { bool b; in >> b; l.rotate_returned.push_back(b); }
                 in >> n; for (size_t i = 0; i < n; i++) { int r; in >> r; l.recs_in_failed_block.push_back(r); } in >> n; std::string ev; std::getline(in, ev); for (size_t i = 0; i < n; i++) { std::getline(in, ev); l.events.push_back(ev); } std::getline(in, l.recovery_error); in >> l.rotations_ok >> l.failed >> l.final_rotate_ok >> l.retry_rotate_ok >> l.failed_before_final;
                 unlink(rf.c_str());
                 if (!hit) { R.violation("fault|fault-point-not-reached", "call " + std::to_string(k) + " never happened", rep); continue; }
                 R.count("nontrivial");
-                std::string fkind = fault == 1 ? "ENOSPC" : fault == 2 ? "EIO" : "short";
+                std::string fkind = fault == 1 ? "ENOSPC" : fault == 2 ? "EIO" : fault == 3 ? "short" : "zero-byte write";
                 const Call& c = trace[k - 1];
                 // clause 1 (no silent loss): an output closed by a rotate_output that returned normally, reached by the same history as in the
                 // fault-free run, must hold exactly the fault-free content. Outputs closed by the recovery rotation after an exception have a
